@@ -60,7 +60,8 @@ def run(chk, tier):
             continue
         fn = fns[0]
         chk.fn_seen(fn['path'])
-        eng = RangeEngine(prog, inline_depth=4)
+        # Buffer::get_bytes is a primitive (its model is checked by C12.OB, its bounds by R1): what matters here is which bytes it names
+        eng = RangeEngine(prog, inline_depth=4, opaque=[r'buffer::Buffer(::<.*>)?::get_bytes$'])
         A.eng = eng
         st = St()
         eng.reset_tables()
